@@ -5,11 +5,13 @@ from props import e1, c07
 
 PROP = "C12"
 DIR = None
-T = {"a.txt": b"A", "x.tmp": b"X0", "y.tmp": b"Y0", ".DS_Store": b"finder", "sub": DIR, "sub/s.txt": b"S", "sub/x.tmp": b"SX",
+T = {"a.txt": b"A", "x.tmp": b"X0", "y.tmp": b"Y0", "u.TMP": b"upper-case extension", ".DS_Store": b"finder", "sub": DIR, "sub/s.txt": b"S", "sub/x.tmp": b"SX",
      "d": DIR, "d/c.txt": b"C", "d/x.tmp": b"DX", "d/sub": DIR, "d/sub/t.txt": b"T", "patterns.lst": b"*.tmp\n\nsub/"}
 PSETS = [[], ["x.tmp"], ["*.tmp"], ["sub/"], ["sub"], ["*.tmp", "sub/"], ["x.tmp", "x.tmp"], ["y.tmp", "*.tmp"],
          # patterns with a separator are anchored at the command's root; a negated pattern re-includes (the last match decides)
-         ["d/sub/t.txt"], ["sub/x.tmp"], ["d/sub/"], ["/x.tmp"], ["*.tmp", "!y.tmp"], ["sub/t.txt", "d/*.tmp"]]
+         ["d/sub/t.txt"], ["sub/x.tmp"], ["d/sub/"], ["/x.tmp"], ["*.tmp", "!y.tmp"], ["sub/t.txt", "d/*.tmp"],
+         # patterns are case sensitive: these are four different patterns
+         ["*.TMP"], ["*.TMP", "*.tmp"], ["SUB/"], ["X.tmp", "x.TMP"]]
 
 
 def file_patterns(tree, o):
@@ -222,7 +224,7 @@ def enabled(tree, meta):
     if g < mg:
         m2 = dict(meta, cmds=g + 1)
         cont = True   # the state after the last create is still visited: the read-only commands run there
-        for ps in PSETS if g < 2 or meta.get("rich") else PSETS[:5] + PSETS[8:10]:
+        for ps in PSETS if g < 2 or meta.get("rich") else PSETS[:5] + PSETS[8:10] + PSETS[14:16]:
             out.append((c("", ["md5"], i=ps), m2, cont))
         out.append((c("", ["md5"], ii="patterns.lst"), m2, cont))
         out.append((c("", ["md5"], ii="patterns.lst", i=["a.txt"]), m2, cont))
